@@ -194,4 +194,56 @@ theorem partition_parts_rect (m : MatrixMeta) (hm : m.Inv) (rp cp : List Nat)
   · rw [hsz.1]; omega
   · rw [hsz.2]; omega
 
+/-- every designated cell lies inside the data of the source -/
+theorem MExpr.cell_lt (e : MExpr) (hle : e.LeavesOk) (i j o : Nat) (h : e.cell i j = some o) :
+    o < e.dataLen := by
+  induction e generalizing i j with
+  | leaf rows columns =>
+    simp only [MExpr.cell] at h
+    by_cases hin : i < rows ∧ j < columns
+    · rw [if_pos hin] at h
+      simp only [Option.some.injEq] at h
+      subst h
+      have h1 : (i + 1) * columns ≤ rows * columns := Nat.mul_le_mul_right _ (by omega)
+      rw [Nat.add_mul] at h1
+      simp only [MExpr.dataLen]; omega
+    · rw [if_neg hin] at h; simp at h
+  | leafCM rows columns =>
+    simp only [MExpr.cell] at h
+    by_cases hin : i < rows ∧ j < columns
+    · rw [if_pos hin] at h
+      simp only [Option.some.injEq] at h
+      subst h
+      have h1 : (j + 1) * rows ≤ columns * rows := Nat.mul_le_mul_right _ (by omega)
+      rw [Nat.add_mul, Nat.mul_comm columns rows] at h1
+      simp only [MExpr.dataLen]; omega
+    · rw [if_neg hin] at h; simp at h
+  | part rows columns rp cp kr kc =>
+    obtain ⟨hrb, hcb⟩ := partRect_bounds rows columns rp cp kr kc hle
+    simp only [MExpr.cell] at h
+    by_cases hin : i < (MExpr.part rows columns rp cp kr kc).size.1 ∧
+        j < (MExpr.part rows columns rp cp kr kc).size.2
+    · rw [if_pos hin] at h
+      simp only [Option.some.injEq] at h
+      subst h
+      have hsz := normSize_le (partRect rows columns rp cp kr kc).1.2 (partRect rows columns rp cp kr kc).2.2
+      simp only [MExpr.size] at hin
+      have h1 : ((partRect rows columns rp cp kr kc).1.1 + i + 1) * columns ≤ rows * columns :=
+        Nat.mul_le_mul_right _ (by omega)
+      rw [Nat.add_mul] at h1
+      simp only [MExpr.dataLen]; omega
+    · rw [if_neg hin] at h; simp at h
+  | range e rows columns ih =>
+    simp only [MExpr.cell] at h
+    by_cases hin : i < (MExpr.range e rows columns).size.1 ∧ j < (MExpr.range e rows columns).size.2
+    · rw [if_pos hin] at h; exact ih hle _ _ h
+    · rw [if_neg hin] at h; simp at h
+  | reverse e fr fc ih =>
+    simp only [MExpr.cell] at h
+    by_cases hin : i < e.size.1 ∧ j < e.size.2
+    · rw [if_pos hin] at h; exact ih hle _ _ h
+    · rw [if_neg hin] at h; simp at h
+  | map e ih => exact ih hle i j h
+  | viaTensor e ih => exact ih hle i j h
+
 end EasyMl.MatrixView
